@@ -122,7 +122,7 @@ PROP = dict(
                  "Greedy::add_all of /repo stops looking at a batch after the first improving element (`acc || self.add(..)`): "
                  "the model has it (Greedy.repoShortCircuits); for Greedy the oracle accepts a trace that meets the full "
                  "specification or, failing that, the proved weaker one (only the considered prefix of a batch counts as "
-                 "offered) and the evidence counts the latter; theorem greedy_repo_add_all_loses_best is the counter-witness, "
+                 "offered) and the evidence counts the latter; theorem greedy_short_circuit_add_all_loses_best is the counter-witness, "
                  "corpus/C08/greedy_batch_skips_better.jsonl replays it on the real code. After a repair of greedy.rs set "
                  "Greedy.repoShortCircuits := false (the correspondence run then demands the full property for Greedy too)"],
 )
